@@ -625,12 +625,12 @@ def chooser_prefix(prefix, record):
     return factory
 
 
-def explore_systematically(base, tmproot, max_runs):
+def explore_systematically(base, tmproot, max_runs, stack=None):
     """Depth-first enumeration of the schedules of one small scenario; returns the list of (sc, impl, obs) runs and whether
-    the enumeration was complete."""
+    the enumeration was complete.  `stack`: prefixes to start from (default: the empty prefix = the whole tree)."""
     sys.path.insert(0, REPO)
     os.makedirs(tmproot, exist_ok=True)
-    stack = [[]]
+    stack = [[]] if stack is None else list(stack)
     runs = []
     while stack and len(runs) < max_runs:
         prefix = stack.pop()
@@ -641,8 +641,8 @@ def explore_systematically(base, tmproot, max_runs):
         runs.append((sc, impl, obs))
         for k in range(len(record) - 1, len(prefix) - 1, -1):
             for alt in range(1, record[k]):
-                stack.append(prefix[:k] + [0] * 0 + list(_pad(prefix, k)) + [alt])
-    return runs, not stack
+                stack.append(prefix[:k] + list(_pad(prefix, k)) + [alt])
+    return runs, not stack, stack
 
 
 def _pad(prefix, k):
@@ -651,8 +651,37 @@ def _pad(prefix, k):
 
 
 def _explore_job(args):
-    base, tmproot, max_runs = args
-    return explore_systematically(base, tmproot, max_runs)
+    base, tmproot, max_runs, stack = args
+    runs, done, left = explore_systematically(base, tmproot, max_runs, stack)
+    return runs, left
+
+
+def explore_parallel(tiny, tmproot, cap, nproc=NCPU):
+    """Every tiny configuration: a short sequential exploration yields a frontier of unexplored prefixes (disjoint subtrees); rounds of
+    parallel depth-first exploration follow, each worker with its share of the remaining budget, unexplored prefixes going back to the
+    frontier, until the frontier is empty (every schedule enumerated) or the cap is reached."""
+    out = []
+    for i, base in enumerate(tiny):
+        runs, done, frontier = explore_systematically(base, os.path.join(tmproot, f"x{i}"), min(cap, 16))
+        out.append({"runs": runs, "frontier": frontier})
+    share = max(1, nproc // max(1, len(tiny)))
+    rnd = 0
+    with ProcessPoolExecutor(max_workers=nproc) as ex:
+        while any(o["frontier"] and len(o["runs"]) < cap for o in out) and rnd < 40:
+            rnd += 1
+            jobs = []
+            for i, o in enumerate(out):
+                budget = cap - len(o["runs"])
+                if not o["frontier"] or budget <= 0:
+                    continue
+                parts = [p_ for p_ in (o["frontier"][j::share] for j in range(share)) if p_]
+                o["frontier"] = []
+                for j, part in enumerate(parts):
+                    jobs.append((i, (tiny[i], os.path.join(tmproot, f"x{i}_{rnd}_{j}"), max(1, -(-budget // len(parts))), part)))
+            for (i, _), (rs, left) in zip(jobs, ex.map(_explore_job, [j[1] for j in jobs])):
+                out[i]["runs"] += rs
+                out[i]["frontier"] += left
+    return [(o["runs"], not o["frontier"]) for o in out]
 
 
 def chooser_follow(schedule):
@@ -956,11 +985,10 @@ def check(prop, tier, replay=None):
     xruns = []
     complete = []
     if tiny:
-        with ProcessPoolExecutor(max_workers=min(NCPU, len(tiny))) as ex:
-            for (rs, done_), base in zip(ex.map(_explore_job, [(b, os.path.join(tmproot, f"x{i}"), cap) for i, b in enumerate(tiny)]), tiny):
-                xruns += rs
-                complete.append({"windows": base["pat"], "observers": len(base["obs"]), "saver": base["saver"], "stop_after": base["stop_after"],
-                                 "schedules": len(rs), "all_schedules_enumerated": bool(done_)})
+        for (rs, done_), base in zip(explore_parallel(tiny, tmproot, cap), tiny):
+            xruns += rs
+            complete.append({"windows": base["pat"], "observers": len(base["obs"]), "saver": base["saver"], "stop_after": base["stop_after"],
+                             "schedules": len(rs), "all_schedules_enumerated": bool(done_)})
         report_runs(V, prop, xruns, wd, "X")
     V.leg("X", configurations=complete, runs=len(xruns), wall_s=round(time.time() - t1, 2))
     V.leg("T", runs=len(runs), events=sum(len(r[1]["ev"]) for r in runs), statuses=count_status(runs), wall_s=round(time.time() - t0, 2))
